@@ -63,8 +63,8 @@ def _mk_embed(n, tiers, timeout):
     return h
 
 
-for _n, _t, _to in [(1, ("quick", "thorough"), 120), (2, ("quick", "thorough"), 300), (3, ("quick", "thorough"), 900),
-                    (4, ("thorough",), 3000)]:
+for _n, _t, _to in [(1, ("quick", "thorough"), 120), (2, ("quick", "thorough"), 300), (3, ("thorough",), 2400),
+                    (4, ("thorough",), 3400)]:
     _mk_embed(_n, _t, _to)
 
 
